@@ -26,11 +26,11 @@ chk("C06", MC, S,
     "Trusts the normalisation table (src/model/trackfields.cpp). Waveform read-back is not predicted. Interference needing three setters is not covered.",
     "DESIGN.md section 5, C06")
 chk("C07", MC, S,
-    "BFS over create_root_crate, create_sub_crate(p), set_name, set_parent(c, every live crate incl. itself and descendants, and none), remove_crate with names {a, b, '', 'x;y'}, <= 4 live crates, two seeds, depth 3 on all 18 schemas + depth 4 on five (quick), depth 5 on all (thorough). In every state the reference forest is compared with crates(), parent(), name(), children(), descendants(), root_crates(), crate_by_id, crates_by_name, root_crate_by_name, sub_crate_by_name and is_valid()/id() of live and removed handles; invalid names and cycles must be rejected without effect.",
+    "BFS over create_root_crate, create_sub_crate(p), set_name, set_parent(c, every live crate incl. itself and descendants, and none), remove_crate with names {a, b, '', 'x;y'}, <= 4 live crates, two seeds, depth 3 on all 18 schemas + depth 4 on five (quick), depth 5 on all + depth 6 on four (thorough). In every state the reference forest is compared with crates(), parent(), name(), children(), descendants(), root_crates(), crate_by_id, crates_by_name, root_crate_by_name, sub_crate_by_name and is_valid()/id() of live and removed handles; invalid names and cycles must be rejected without effect.",
     "Duplicate sibling names and the fate of a removed crate's subtree are left open by the statement (all-or-nothing / consistency of whatever survives is checked). States that violate the property are not expanded.",
     "DESIGN.md section 5, C07")
 chk("C08", MC, S,
-    "BFS over create_track, remove_track, create_root / sub crate, remove_crate, add_track (both overloads), crate.remove_track, clear_tracks with <= 3 tracks and <= 3 crates from three seeds (two with offset id spaces), depth 3 quick / 5 thorough, all 18 schemas. In every state crate.tracks() equals the model's member multiset with valid handles only, containing_crates() is the converse on 1.x, database::tracks() equals the live set.",
+    "BFS over create_track, remove_track, create_root / sub crate, remove_crate, add_track (both overloads), crate.remove_track, clear_tracks with <= 3 tracks and <= 3 crates from three seeds (two with offset id spaces), depth 3 quick / 6 thorough, all 18 schemas. In every state crate.tracks() equals the model's member multiset with valid handles only, containing_crates() is the converse on 1.x, database::tracks() equals the live set.",
     "containing_crates() throws 'not yet implemented' on 2.x, which the statement's 'where supported' allows. More than 3 tracks / crates are not covered.",
     "DESIGN.md section 5, C08")
 chk("C09", MC, S,
